@@ -9,6 +9,8 @@ use tokio::io::{AsyncRead, AsyncReadExt, AsyncSeek, AsyncSeekExt, ReadBuf};
 use crate::archive_reader::ArchiveReader;
 use crate::ChunkOffset;
 
+const MAX_READ_AT_PREALLOC: usize = 1024 * 1024;
+
 /// Wrapper which implements ArchiveReader for any type which implements
 /// tokio AsyncRead and AsyncSeek.
 pub struct IoReader<T>(T);
@@ -34,9 +36,12 @@ where
 
     async fn read_at(&mut self, offset: u64, size: usize) -> Result<Bytes, io::Error> {
         self.0.seek(io::SeekFrom::Start(offset)).await?;
-        let mut buf = BytesMut::with_capacity(size);
+        // The size may come from an untrusted header, let the buffer grow with
+        // the data actually present instead of allocating it all up front.
+        let mut buf = BytesMut::with_capacity(std::cmp::min(size, MAX_READ_AT_PREALLOC));
+        let mut reader = (&mut self.0).take(size as u64);
         while buf.len() < size {
-            if self.0.read_buf(&mut buf).await? == 0 {
+            if reader.read_buf(&mut buf).await? == 0 {
                 return Err(io::ErrorKind::UnexpectedEof.into());
             }
         }
